@@ -560,7 +560,7 @@ func proofMode(K int, seed int64, states int, out *json.Encoder) error {
 			// a well-formed key of another length in place of a proof node's key (a sibling that is a prefix of the path, ...)
 			for i := 0; i < len(pf); i++ {
 				for j, tk := range treeKeys {
-					if string(tk) == string(pf[i].Key) || (K > 3 && rng.Intn(16) != 0) || (K == 3 && s%3 != 0) {
+					if string(tk) == string(pf[i].Key) || (K > 3 && rng.Intn(16) != 0) || (K == 3 && ((states < 100 && s%3 != 0) || (states >= 100 && s%9 != 0))) {
 						continue
 					}
 					m := cloneProof(pf)
